@@ -124,7 +124,7 @@ def main():
     print(json.dumps(res, indent=1))
     keep = os.environ.get("MUT_KEEP")
     if keep and res.get("patch_applies") and res.get("existing_suite_pass") and res.get("demo_with_patch_fail") and res.get("demo_without_patch_pass"):
-        name = os.path.basename(os.path.dirname(os.path.dirname(mdir.rstrip("/")))) + "-" + os.path.basename(mdir.rstrip("/"))
+        name = os.path.basename(os.path.dirname(os.path.dirname(mdir.rstrip("/")))) + "-" + os.environ.get("MUT_PREFIX", "") + os.path.basename(mdir.rstrip("/"))
         d = os.path.join("/verif/seeded", name)
         os.makedirs(d, exist_ok=True)
         src = os.path.join(mdir, "patch.rebased.diff") if res.get("rebased") else patch
